@@ -20,7 +20,9 @@
  *   atom-register      register result (success/failure, group bits of the id)
  *   atom-id-duplicate  a new id equals the id of a registration that is still live
  *   atom-id-reissued   a new id equals an id issued earlier in the process (":after-reinit" when the group went
- *                      through a full destroy + init in between, ":after-shutdown" after HAshutdown)
+ *                      through a full destroy + init in between, ":after-shutdown" after HAshutdown).  This was the
+ *                      behaviour of atom.c until the id counters were moved out of the group records (fixed); the
+ *                      oracle stays so that a regression is reported as a violation.
  *   atom-lookup        HAatom_object result differs from the shadow table (live -> its own object, else NULL)
  *   atom-remove        HAremove_atom result differs from the shadow table
  *   atom-group         HAatom_group result differs from the top four bits / MAXGROUP rule
@@ -89,6 +91,7 @@ static void reset_atoms(void)
     HAIfree_atom_list(atom_free_list);
     atom_free_list = NULL;
     for (int u = 0; u < ATOM_CACHE_SIZE; u++) { atom_id_cache[u] = -1; atom_obj_cache[u] = NULL; }
+    memset(atom_next_id, 0, sizeof atom_next_id); /* the per-group id counters survive HAshutdown: a new case starts a new "process" */
     nents = 0; after_shutdown = 0;
     memset(sh_count, 0, sizeof sh_count); memset(sh_used, 0, sizeof sh_used); memset(sh_reinit, 0, sizeof sh_reinit);
 }
